@@ -447,6 +447,66 @@ pub fn run(sc: &Value) -> Vec<Value> {
             push(m);
         }
     }
+    // ---- sweeps: the same archive behind every prepended length of a range / in front of every trailing length of a range.
+    // One compact event per length: result class, reported offset and entry count, and a digest of (name, size, content CRC or
+    // open error class) of every entry, next to the digest of the unmodified archive (whose entries the events above describe)
+    let digest_of = |b: &[u8]| -> (String, u64, usize, String) {
+        let r = catch_unwind(AssertUnwindSafe(|| -> Result<(u64, usize, String), String> {
+            let mut a = ZipArchive::new(Cursor::new(b)).map_err(|e| err_class(&e).to_string())?;
+            let mut acc: Vec<u8> = vec![];
+            for i in 0..a.len() {
+                match a.by_index(i) {
+                    Ok(mut f) => {
+                        acc.extend_from_slice(f.name_raw());
+                        acc.extend_from_slice(&f.size().to_le_bytes());
+                        let (rc, ln, crc, _) = read_all(&mut f);
+                        acc.extend_from_slice(rc.as_bytes());
+                        acc.extend_from_slice(&ln.to_le_bytes());
+                        acc.extend_from_slice(&crc.to_le_bytes());
+                    }
+                    Err(e) => acc.extend_from_slice(err_class(&e).as_bytes()),
+                }
+            }
+            Ok((a.offset(), a.len(), hid(&acc)))
+        }));
+        match r {
+            Ok(Ok((o, n, d))) => ("ok".into(), o, n, d),
+            Ok(Err(c)) => (c, 0, 0, String::new()),
+            Err(_) => ("panic".into(), 0, 0, String::new()),
+        }
+    };
+    if let Some(sw) = sc.get("sweep") {
+        let (_, off0, _, d0) = digest_of(&bytes);
+        let fill = sw.get("fill").and_then(|x| x.as_u64()).unwrap_or(7) as u8;
+        for (what, key) in [("prefix", "prefix"), ("trailing", "trailing")] {
+            if let Some(rg) = sw.get(key).and_then(|x| x.as_array()) {
+                let (from, to, step) = (rg[0].as_u64().unwrap_or(0), rg[1].as_u64().unwrap_or(0), rg.get(2).and_then(|x| x.as_u64()).unwrap_or(1).max(1));
+                let mut p = from;
+                while p <= to {
+                    let mut b: Vec<u8> = Vec::with_capacity(bytes.len() + p as usize);
+                    if what == "prefix" {
+                        b.resize(p as usize, fill);
+                        b.extend_from_slice(&bytes);
+                    } else {
+                        b.extend_from_slice(&bytes);
+                        b.resize(bytes.len() + p as usize, fill);
+                    }
+                    let (r, off, nn, d) = digest_of(&b);
+                    let mut m = Map::new();
+                    m.insert("ev".into(), json!("RSweep"));
+                    m.insert("what".into(), json!(what));
+                    m.insert("p".into(), json!(p));
+                    m.insert("r".into(), json!(r));
+                    m.insert("offset".into(), json!(off.min(2147483647)));
+                    m.insert("offset0".into(), json!(off0.min(2147483647)));
+                    m.insert("n".into(), json!(nn));
+                    m.insert("same".into(), json!(d == d0));
+                    push(m);
+                    p += step;
+                }
+            }
+        }
+    }
     out
 }
 
